@@ -200,13 +200,13 @@ func planJobs(w *apiWorld, s *sched, tier string) []schedJob {
 		// a third preemption where the scenario is small enough, a second one with statement points likewise
 		var extra []schedJob
 		for _, j := range jobs {
-			if !j.stmt && len(j.sc.calls) == 2 && j.pts <= 70 {
+			if !j.stmt && len(j.sc.calls) == 2 && j.pts <= 50 {
 				e := j
 				e.bound = 3
 				e.cost = j.cost * float64(j.pts) / 3
 				extra = append(extra, e)
 			}
-			if j.stmt && j.pts <= 330 {
+			if j.stmt && j.pts <= 150 {
 				e := j
 				e.bound = 2
 				e.cost = j.cost * float64(j.pts) / 2
@@ -250,7 +250,7 @@ func runSchedx(ctx *core.Ctx, tier string) {
 	mine := assignJobs(jobs, nshards)[shard]
 	ctx.Rep.Rule = fmt.Sprintf("stateless DFS over ALL schedules of each scenario within a preemption bound (iterative context bounding; Pool.Get answers share the deviation budget), on the real code under a controlled scheduler. Scenarios: every unordered pair (incl. the same call twice) of %d calls on ONE shared Patch and shared input slices, with cold and with warm type caches, plus 3-goroutine scenarios. "+
 		"Two configurations: (A) a scheduling point before every sync.Pool/Map/WaitGroup operation of the codec and at call start/end; (B) additionally before every statement of every function that touches a pool or cache (injected at build time), which is what exposes an object being used after it was returned to a pool. "+
-		"Tier plan: quick = A with <=2 preemptions on cold pairs whose default schedule has <=200 points, <=1 on the larger ones, on warm pairs and on 3-goroutine scenarios, B with <=1; thorough = A with <=2 everywhere (3 where the default schedule has <=70 points), B with <=1 (2 where <=330 points). "+
+		"Tier plan: quick = A with <=2 preemptions on cold pairs whose default schedule has <=200 points, <=1 on the larger ones, on warm pairs and on 3-goroutine scenarios, B with <=1; thorough = A with <=2 everywhere (3 where the default schedule has <=50 points), B with <=1 (2 where <=150 points). "+
 		"Oracle per complete schedule: every goroutine's call returns its solo outcome, shared buffers and Patch unchanged, no panic, no deadlock. states = distinct library states (dump of all package-level variables) at the end of the schedules with <=1 deviation; transitions = scheduling points executed; non-trivial = schedules with >=1 preemption. "+
 		"Second half (mandatory for the 'no data race' clause): the same bodies free-running under the Go race detector, see coverage.race_pass", len(schedBodies))
 	ctx.Rep.Assume = append(ctx.Rep.Assume,
